@@ -3,7 +3,7 @@ import os
 import shutil
 import threading
 
-from . import build
+from . import build  # noqa
 from .common import HarnessError, Result, run, sha, write
 
 LD_BFD = shutil.which("ld.bfd") or shutil.which("ld")
